@@ -41,51 +41,81 @@ def variant_table(reg):
     return table
 
 
+ACQ = re.compile(r"self\.(read_state|write_state)\(\)")
+LET_GUARD = re.compile(r"let\s+(?:mut\s+)?(\w+)\s*=\s*self\.(read_state|write_state)\(\)\s*;")
+
+
+def enclosing_block_end(text, pos):
+    """Index just past the '}' closing the innermost block that contains pos (len(text) at top level)."""
+    depth = 0
+    for j in range(pos, len(text)):
+        if text[j] == "{": depth += 1
+        elif text[j] == "}":
+            if depth == 0: return j + 1
+            depth -= 1
+    return len(text)
+
+
+def guards(text):
+    """let-bound lock guards: (var, kind, position after the statement, end of scope)."""
+    return [(m.group(1), m.group(2), m.end(), enclosing_block_end(text, m.end())) for m in LET_GUARD.finditer(text)]
+
+
+def one_section(body):
+    """Exactly one acquisition, bound by `let` in the outermost block of `body`, never dropped early."""
+    gs = guards(body)
+    return (len(ACQ.findall(body)) == 1 and len(gs) == 1 and gs[0][3] == len(body)
+            and re.search(r"drop\(\s*" + gs[0][0] + r"\s*\)", body) is None)
+
+
+def call_outside_lock(d):
+    """No `.call(` is reached while a guard is alive (a let-bound guard in scope and not dropped, or a
+    temporary guard in the same statement)."""
+    for m in re.finditer(r"\.call\(", d):
+        c = m.start()
+        for var, _, pos, end in guards(d):
+            if pos <= c < end and re.search(r"drop\(\s*" + var + r"\s*\)", d[pos:c]) is None:
+                return False
+        # temporary guard: `self.read_state().…` with the call before the statement ends
+        for t in ACQ.finditer(d):
+            if LET_GUARD.search(d[max(0, t.start() - 40):t.end() + 2]): continue
+            semi = d.find(";", t.end())
+            if t.end() <= c < (semi if semi >= 0 else len(d)): return False
+    return True
+
+
 def lock_facts(reg):
     imp = impl_block(reg, r"impl Registry\s*\{")
-    acq = re.compile(r"self\.(read_state|write_state)\(\)")
-    single = []
-    for fn in SINGLE:
-        b = fn_body(imp, fn)
-        sts = statements(b)
-        n = len(acq.findall(b))
-        first = bool(sts) and re.fullmatch(r"let (mut )?state = self\.(read_state|write_state)\(\);", sts[0]) is not None
-        # the guard must live to the end of the body: no explicit drop, no inner block holding it
-        single.append((fn, n == 1 and first and "drop(state)" not in b))
+    single = [(fn, one_section(fn_body(imp, fn))) for fn in SINGLE]
     d = fn_body(imp, "dispatch_with_ctx")
     # region 0: the read request
     m = re.search(r"if body\.is_none\(\)\s*\{", d)
     if not m: raise ExtractError("dispatch_with_ctx: `if body.is_none()` block")
     rd = d[m.end():match_brace(d, m.end() - 1) - 1]
     rd_sts = statements(rd)
-    read_single = len(acq.findall(rd)) == 1 and rd_sts[0] == "let state = self.read_state();" and "return" in rd_sts[-1]
+    read_single = one_section(rd) and bool(rd_sts) and "return" in rd_sts[-1]
     rest = d[match_brace(d, m.end() - 1):]
-    # region 1: `let function = { let state = self.read_state(); state.functions.get(key.as_ref()).cloned() };`
-    m1 = re.search(r"let function\s*=\s*\{", rest)
-    if not m1: raise ExtractError("dispatch_with_ctx: `let function = { … }` lookup block")
-    e1 = match_brace(rest, m1.end() - 1)
-    blk = " ".join(rest[m1.end():e1 - 1].split())
-    if not re.fullmatch(r"let state = self\.read_state\(\); state\.functions\.get\(key\.as_ref\(\)\)\.cloned\(\)", blk):
-        raise ExtractError(f"dispatch_with_ctx: lookup block not recognised: `{blk}`")
-    after = rest[e1:]
-    m2 = re.search(r"if let Some\(f\) = function\s*\{", after)
-    w = after.find("self.write_state()")
-    if not m2 or w < 0 or m2.start() > w: raise ExtractError("dispatch_with_ctx: call branch / write_state order")
-    call_blk = after[m2.end():match_brace(after, m2.end() - 1) - 1]
-    if "f.call(" not in call_blk.replace(" ", "").replace("\n", "").replace(".call(", ".call(") and ".call(" not in call_blk:
-        raise ExtractError("dispatch_with_ctx: call branch does not call")
-    # dangerous form, not an extraction failure: more lock acquisitions after the lookup = the write is not one section
-    n_acq_after = len(acq.findall(after))
-    wr = after[w:]
+    # region 1: the function-map lookup is the first acquisition (a read lock), region 2 a later write lock
+    acqs = list(ACQ.finditer(rest))
+    if len(acqs) < 2 or acqs[0].group(1) != "read_state": raise ExtractError("dispatch_with_ctx: lookup (read lock) then write lock not recognised")
+    w = next((a.start() for a in acqs[1:] if a.group(1) == "write_state"), -1)
+    if w < 0: raise ExtractError("dispatch_with_ctx: no write lock after the lookup")
+    if not re.search(r"functions\s*\.\s*(get|contains_key)\(", rest[:w]): raise ExtractError("dispatch_with_ctx: no function-map lookup before the write lock")
+    if ".call(" not in rest: raise ExtractError("dispatch_with_ctx: no call")
+    after = rest[acqs[1].start():]
+    wr = rest[w:]
     mut = min([i for i in (wr.find("set_pointer("), wr.find("ensure_object_root(")) if i >= 0], default=-1)
     if mut < 0: raise ExtractError("dispatch_with_ctx: no mutation after write_state")
-    head = wr[:mut]
-    recheck = re.search(r"state\s*\.\s*functions\s*\.\s*(get|contains_key)\(\s*key\.as_ref\(\)\s*\)", head) is not None
+    gw = LET_GUARD.search(rest[max(0, w - 40):w + 30])
+    wvar = gw.group(1) if gw else "state"
+    recheck = re.search(wvar + r"\s*\.\s*functions\s*\.\s*(get|contains_key)\(\s*key\.as_ref\(\)\s*\)", wr[:mut]) is not None
     if recheck and ".call(" not in wr:
         raise ExtractError("dispatch_with_ctx: function map re-read under the write lock but no call follows")
-    # the only legitimate early release is the one before calling a callable found by the re-check
-    write_single = n_acq_after == 1 and after.count("drop(state)") <= (1 if recheck else 0)
-    return single, read_single, recheck, write_single
+    # dangerous forms are FACTS, not extraction failures: further acquisitions after the lookup, an early release other
+    # than the one before calling a callable found by the re-check, a call made while a guard is alive
+    n_drops = len(re.findall(r"drop\(\s*" + wvar + r"\s*\)", after))
+    write_single = len(ACQ.findall(after)) == 1 and n_drops <= (1 if recheck else 0)
+    return single, read_single, recheck, write_single, call_outside_lock(d)
 
 
 def map_sorted():
@@ -147,10 +177,10 @@ def shape_facts(reg):
 
 def extract():
     reg = test_mod_cut(strip(read("src/registry.rs")))
-    single, read_single, recheck, write_single = lock_facts(reg)
+    single, read_single, recheck, write_single, call_outside = lock_facts(reg)
     shape = shape_facts(reg)
     return {"bodyFormats": body_formats(), "shape": shape, "errorCodes": error_codes(), "registryErrorCode": variant_table(reg), "singleSection": single,
-            "readDispatchSingleSection": read_single, "lookupThenWriteLock": True, "writeSectionSingle": write_single,
+            "readDispatchSingleSection": read_single, "lookupThenWriteLock": True, "writeSectionSingle": write_single, "callOutsideLock": call_outside,
             "recheckUnderWriteLock": recheck, "mapSorted": map_sorted()}
 
 
@@ -172,6 +202,8 @@ def render(f):
          f"def lookupThenWriteLock : Bool := {lb(f['lookupThenWriteLock'])}",
          "/-- after the lookup the write lock is taken exactly once and held over the whole mutation -/",
          f"def writeSectionSingle : Bool := {lb(f['writeSectionSingle'])}",
+         "/-- no callable is invoked while a lock guard is alive -/",
+         f"def callOutsideLock : Bool := {lb(f['callOutsideLock'])}",
          "/-- the write-lock region looks the function map up again before mutating -/",
          f"def recheckUnderWriteLock : Bool := {lb(f['recheckUnderWriteLock'])}",
          "/-- serde_json is built without `preserve_order`: `Map` is a `BTreeMap` -/",
